@@ -46,10 +46,13 @@ fn run_c03(ctx: &mut Ctx) -> Verdict {
         _ => "profile_star_generalized_reader",
     });
     let want: BTreeSet<MQuad> = input.iter().map(norm_quad).collect();
-    let n = input.len();
+    let _n = input.len();
     let want2 = want.clone();
-    let doc_check = move |doc: &[u8]| -> Result<(), Violation> {
+    let triples_only = triples;
+    let doc_check = move |doc: &[u8], statements: usize| -> Result<(), Violation> {
         // one statement per line
+        let _ = triples_only;
+        let n = statements;
         let lines = doc.iter().filter(|b| **b == b'\n').count();
         if lines != n || (!doc.is_empty() && doc.last() != Some(&b'\n')) {
             return Err(Violation::new(
@@ -495,10 +498,10 @@ fn warmup() {
     ];
     for f in &fmts {
         let w = SimWriter::perfect();
-        let _ = f.serialize(&q, w.handle());
+        let _ = f.serialize(&q, w.handle(), 0);
         let _ = f.parse(SimReader::perfect(w.accepted()));
         let w = SimWriter::perfect();
-        let _ = f.serialize(&strict, w.handle());
+        let _ = f.serialize(&strict, w.handle(), 2);
         let _ = f.parse(SimReader::perfect(w.accepted()));
     }
 }
